@@ -16,7 +16,7 @@ PROPS = {
         not_yet_proved=[],
     ),
     "C02": dict(
-        extra_modules=["CstModel.Proofs.TokenNav", "CstModel.Props.C03"],   # C03.forwarders_*: `text_range` of every wrapper type is the wrapped element's
+        extra_modules=["CstModel.Props.Gen", "CstModel.Proofs.TokenNav", "CstModel.Props.C03"],   # C03.forwarders_*: `text_range` of every wrapper type is the wrapped element's
         runs=runs([("red", "release")],
                   [("red", "release"), ("red", "debug"), ("red", "lasso")]),
         tags=["C02"],
@@ -31,7 +31,7 @@ PROPS = {
         not_yet_proved=[],
     ),
     "C03": dict(
-        extra_modules=["CstModel.Proofs.Walk", "CstModel.Proofs.WalkN", "CstModel.Proofs.TokenSpec", "CstModel.Proofs.BackN"],
+        extra_modules=["CstModel.Props.Gen", "CstModel.Proofs.Walk", "CstModel.Proofs.WalkN", "CstModel.Proofs.TokenSpec", "CstModel.Proofs.BackN"],
         runs=runs([("red", "release")],
                   [("red", "release"), ("red", "debug"), ("red", "lasso")]),
         tags=["C03"],
@@ -44,6 +44,7 @@ PROPS = {
         not_yet_proved=[],
     ),
     "C04": dict(
+        extra_modules=["CstModel.Props.Gen"],   # gen_*: bodies transcribed from the source evaluate to the model (tools/rs2lean.py)
         tags=["C04", "C01"],   # the history runs also evaluate the structural oracle: "equal in structure, kinds and text" is part of C04
         runs=runs([("history", "release")],
                   [("history", "release"), ("history", "lasso"), ("build", "release")]),
@@ -143,6 +144,7 @@ PROPS = {
         not_yet_proved=[],
     ),
     "C11": dict(
+        extra_modules=["CstModel.Props.Gen"],   # gen_*: bodies transcribed from the source evaluate to the model (tools/rs2lean.py)
         tags=["C11", "C01"],   # "resolving a token yields the text it was built from": the finished tree is compared with the events' tree in the same runs
         runs=runs([("tokens", "release"), ("tokens", "debug")],
                   [("tokens", "release"), ("tokens", "debug"), ("tokens", "lasso"), ("tokens", "lasso-debug")]),
@@ -168,7 +170,7 @@ PROPS = {
         not_yet_proved=[],
     ),
     "C13": dict(
-        extra_modules=["CstModel.Proofs.ChunksTree"],
+        extra_modules=["CstModel.Props.Gen", "CstModel.Proofs.ChunksTree"],
         runs=runs([("queries", "release")], [("queries", "release"), ("queries", "debug")]),
         rule="cases = every tree with <= 4 (thorough 5) elements over {interned 'a', interned '', 'éb', static ''} incl. empty nodes and zero-length tokens at every "
              "boundary x every node as starting point x every offset in [start, end] x every range inside [start, end] (exhaustive), on a fresh red tree; "
@@ -229,7 +231,7 @@ PROPS = {
         not_yet_proved=[],
     ),
     "C19": dict(
-        extra_modules=["CstModel.Props.C03"],   # C03.forwarders_*: display / debug of every wrapper type forward to the node's / token's own
+        extra_modules=["CstModel.Props.Gen", "CstModel.Props.C03"],   # C03.forwarders_*: display / debug of every wrapper type forward to the node's / token's own
         runs=runs([("fmt", "release")], [("fmt", "release"), ("fmt", "debug"), ("fmt", "lasso")]),
         rule="cases = for every byte length 0..40 (thorough 0..60): 8 (thorough 12) texts built from 1-4 byte characters in different patterns + 4-byte runs shifted "
              "by 1-3 bytes, so that every alignment of character boundaries against the abbreviation window [21,25) occurs; texts needing escapes; all trees with "
